@@ -8,6 +8,7 @@ mod relocs;
 mod c16;
 mod c02;
 mod c15;
+mod c14;
 
 fn main() {
     std::panic::set_hook(Box::new(|_| {}));
@@ -21,6 +22,7 @@ fn main() {
         "c16" => c16::run_case,
         "c02" => c02::run_case,
         "c15" => c15::run_case,
+        "c14" => c14::run_case,
         _ => {
             eprintln!("unknown subcommand {cmd}");
             std::process::exit(2);
